@@ -305,6 +305,13 @@ class Tensor:
 
         return result_tensor
 
+    def _index_types(self) -> dict[str, Any]:
+        # index types for the result of elementwise arithmetic: collection (free) indices stay collection indices
+        return {
+            "covariant": [i - self.rank for i in self._covariant_indices],
+            "tensor_rank": self.rank - self.free_indices,
+        }
+
     def __setitem__(self, key: TensorIndex, value: Tensor | npt.ArrayLike) -> None:
         if isinstance(value, Tensor):
             value = value.array
@@ -315,7 +322,7 @@ class Tensor:
 
     def __mul__(self, other: Tensor | npt.ArrayLike) -> Tensor:
         if is_numerical_scalar(other):
-            return Tensor(self.array * other, covariant=self._covariant_indices, copy=False)  # type: ignore[operator]
+            return Tensor(self.array * other, **self._index_types(), copy=False)  # type: ignore[operator]
         if not isinstance(other, Tensor):
             other = Tensor(other, copy=False)
         return TensorDiagram((other, self)).calculate()
@@ -345,13 +352,13 @@ class Tensor:
 
     def __truediv__(self, other: Tensor | npt.ArrayLike) -> Tensor:
         if is_numerical_scalar(other):
-            return Tensor(self.array / other, covariant=self._covariant_indices, copy=False)  # type: ignore[operator]
+            return Tensor(self.array / other, **self._index_types(), copy=False)  # type: ignore[operator]
         return NotImplemented
 
     def __add__(self, other: Tensor | npt.ArrayLike) -> Tensor:
         if isinstance(other, Tensor):
             other = other.array
-        return Tensor(self.array + other, covariant=self._covariant_indices, copy=False)  # type: ignore[operator]
+        return Tensor(self.array + other, **self._index_types(), copy=False)  # type: ignore[operator]
 
     def __radd__(self, other: Tensor | npt.ArrayLike) -> Tensor:
         return self + other
@@ -359,7 +366,7 @@ class Tensor:
     def __sub__(self, other: Tensor | npt.ArrayLike) -> Tensor:
         if isinstance(other, Tensor):
             other = other.array
-        return Tensor(self.array - other, covariant=self._covariant_indices, copy=False)  # type: ignore[operator]
+        return Tensor(self.array - other, **self._index_types(), copy=False)  # type: ignore[operator]
 
     def __rsub__(self, other: Tensor | npt.ArrayLike) -> Tensor:
         return -self + other
